@@ -86,6 +86,16 @@ MUTANTS = [
     ("C01", R + "iteration/_engine.py", "for ascending, callables in grouped_by_ascending[::-1]:", "for ascending, callables in grouped_by_ascending:", "sort passes applied in the wrong order (bounded stand-in)"),
     ("C01", R + "iteration/_row_iterable.py", "            if self.stop is not None and n == self.stop:", "            if self.stop is not None and n > self.stop:", "SliceRowIterable yields one row too many (bounded stand-in)"),
     ("C01", R + "iteration/_engine.py", "return lambda row: all(c(row) for c in operand_callables)", "return lambda row: any(c(row) for c in operand_callables)", "convert_predicate turns AND into OR (bounded stand-in)"),
+    ("C07", R + "_processor.py", "                    payload = self.transfer(new_target, destination, materialize_as)", "                    payload = self.transfer(target, destination, materialize_as)", "transfer hook invoked on the unprocessed target"),
+    ("C07", R + "_processor.py", "                result = original.reapply(new_target, payload)\n                return result, materialize_as is not None", "                original.attach_payload(payload)\n                return original, materialize_as is not None", "processor attaches the payload to the input transfer"),
+    ("C07", R + "_processor.py", "                    if new_lhs.max_rows == 0:\n                        return new_rhs, rhs_persisted", "                    if new_lhs.max_rows == 0:\n                        return new_lhs, lhs_persisted", "chain pruning returns the empty branch"),
+    ("C07", R + "_processor.py", "                if new_target is not target:\n                    return operation.apply(new_target), False", "                if new_target is not target:\n                    return operation.apply(target), False", "unary arm re-applies to the unprocessed target"),
+    ("C07", R + "_processor.py", "                elif original.is_join_identity:\n                    payload = target.engine.get_join_identity_payload()\n                elif original.max_rows == 0:", "                elif original.max_rows == 0:", "materialize hook invoked for a join identity"),
+    ("C07", R + "_processor.py", "                return original.reapply(new_target), persisted", "                return original, persisted", "marker arm returns the unprocessed marker"),
+    ("C07", R + "_processor.py", "                if new_lhs is not lhs or new_rhs is not rhs:\n                    return operation.apply(new_lhs, new_rhs), False", "                if new_lhs is not lhs:\n                    return operation.apply(new_lhs, new_rhs), False", "binary arm forgets a processed right operand"),
+    ("C07", R + "_processor.py", "                if original.is_join_identity:\n                    payload = destination.get_join_identity_payload()\n                    new_target = target\n                elif original.max_rows == 0:", "                if original.max_rows == 0:", "transfer hook invoked for a join identity"),
+    ("C10", R + "_processor.py", "        if original.payload is not None:\n            return original, True\n", "", "processor re-processes nodes that already carry a payload"),
+    ("C10", R + "_processor.py", "                original.attach_payload(payload)\n                if result is not original:", "                if result is not original:", "processed materialization never receives its payload"),
     ("C10", R + "iteration/_engine.py", "        if (result := relation.payload) is not None:\n            return result\n", "", "execute ignores an existing payload (re-evaluates materializations)"),
     ("C10", R + "iteration/_engine.py", "                relation.attach_payload(result)\n", "", "execute does not cache a materialization"),
     ("C10", R + "iteration/_engine.py", "                result = self.execute(target).materialized()\n                relation.attach_payload(result)", "                result = self.execute(target).materialized()\n                target.attach_payload(result)", "execute attaches the payload to the wrong node"),
